@@ -108,7 +108,7 @@ def run(chk: core.Check, tier: str, seed: int) -> None:
     chk.sample({"query": core.dec_text(recs[40]["q"]), "locs": recs[40]["locs"]})
     chk.sample({"query": core.dec_text(recs[-1]["q"]), "doc": core.dec_value(recs[-1]["doc"]), "locs": recs[-1]["locs"]})
     common.judge(chk, recs, "c02", what="Trace: filter find() records vs Eval.tla",
-                 only=lambda c: c.startswith("C13 find") or not c.startswith(("C03", "C04", "C05", "C13")))
+                 only=lambda c: c.startswith(("C13 find", "C03")) or not c.startswith(("C03", "C04", "C05", "C13")))
     chk.rule = (
         f"{n_sys} systematic records ({len(ATOMS)} atoms and their negations, {len(exprs) - 2 * len(ATOMS)} seeded "
         "and/or/not/paren combinations, minimal and fully parenthesised, on an array and an object with 18 child kinds, "
